@@ -1,8 +1,33 @@
+//! Verification harness for jonasBoss/ndarray-interp: runs the real crate (path dependency on
+//! /repo, rebuilt from its working tree) on protocol cases and on in-process property checks.
+
 mod bigint;
+mod proto;
 mod q;
+mod run;
+
+use std::io::{BufRead, Write};
 
 fn main() {
-    // smoke test of the exact scalar: 1/2 + 1/3 = 5/6
-    let sum = q::Q::parse("1/2").unwrap() + q::Q::parse("1/3").unwrap();
-    println!("vharness skeleton: 1/2 + 1/3 = {sum} ({} arena values)", q::arena_len());
+    // panics of the crate under test are outcomes, not noise
+    std::panic::set_hook(Box::new(|_| {}));
+    let args: Vec<String> = std::env::args().collect();
+    match args.get(1).map(|s| s.as_str()) {
+        Some("run") => {
+            let stdin = std::io::stdin();
+            let stdout = std::io::stdout();
+            let mut out = std::io::BufWriter::new(stdout.lock());
+            for line in stdin.lock().lines() {
+                let line = line.expect("read");
+                if line.trim().is_empty() {
+                    continue;
+                }
+                writeln!(out, "{}", run::run_line(&line)).expect("write");
+            }
+        }
+        _ => {
+            eprintln!("usage: vharness run < cases > results");
+            std::process::exit(2);
+        }
+    }
 }
